@@ -10,10 +10,21 @@
      mistral/api/controllers/v2/resources.py:CronTrigger.remaining_executions (IntegerType(minimum=1)) -> rest_count_ok
      mistral/db/v2/sqlalchemy/api.py:get_cron_trigger (lookup by name-or-id among the rows visible to the trigger's
         project: own project or scope public, `.first()`), update_cron_trigger(query_filter), delete_cron_trigger
-        (check_db_obj_access)                                -> resolve / adv; whether advance_cron_trigger passes
-                                                              t.name or t.id: Gen/CronCfg.v (translate/tr_croncfg.py)
+        (check_db_obj_access)                                -> resolve / select / write; whether advance_cron_trigger
+                                                              passes t.name or t.id: Gen/CronCfg.v (translate/tr_croncfg.py)
+     the two database calls of advance_cron_trigger are NOT atomic: each one is a SELECT (get_cron_trigger) followed
+        by a separate DELETE / UPDATE statement, and another processor can commit in between.  `Sel i k` is the part up
+        to and including the SELECT (+ check_db_obj_access), `Wr i` is the DELETE / UPDATE statement with what the
+        call then REPORTS to advance_cron_trigger (modified_count; the processor starts the workflow iff it is > 0).
+        What a writer that lost the race reports is the compare-and-swap shape of the two functions, extracted on
+        every run into Gen/CronCfg.v:
+          delete_reports_rowcount = true : delete_cron_trigger returns the row count of `DELETE ... WHERE id = <id>`
+                                           (0 for the loser); false: it reports 1 whatever was deleted
+          update_reports_match    = true : update_cron_trigger(query_filter) reports 0 when the conditional UPDATE
+                                           matches no row (NoRowsMatched); false: it reports 1
+        `Adv i k` = Sel immediately followed by Wr (one processor running the whole call undisturbed).
      mistral/services/security.py:create_context             -> the project / trust of a start event (e_proj, e_payload)
-   Correspondence suite: harness/suites/C17.py (create, run).
+   Correspondence suite: harness/suites/C17.py (create, run, inside).
    No proofs in this file. *)
 From Coq Require Import List NArith ZArith Bool.
 Import ListNotations.
@@ -34,12 +45,14 @@ Record ev := mkEv { e_proc : nat; e_key : nat; e_occ : N; e_payload : nat; e_pro
 Definition occ_of (e : ev) : nat * N := (e_key e, e_occ e).
 
 (* Processors (API / periodic processes) are numbered; per processor: what its last read returned and is not
-   processed yet (snap i k = its copy of row k), and the trigger it has advanced but whose workflow it has not
-   started yet (pend i). *)
+   processed yet (snap i k = its copy of row k), the database call it is in the middle of (sel i = (k, sn, k', nv):
+   for its snapshot sn of row k it has SELECTed row k' and will write next_execution_time nv, computed before the
+   call), and the trigger it has advanced but whose workflow it has not started yet (pend i). *)
 Record state := mkS {
   now : N;
   db : nat -> option trig;
   snap : nat -> nat -> option trig;
+  sel : nat -> option (nat * trig * nat * N);
   pend : nat -> option (nat * trig);
   starts : list ev;
   won : list (nat * N);    (* ghost: (row, value of next_execution_time it was moved away from / deleted at) *)
@@ -48,7 +61,9 @@ Record state := mkS {
 Inductive op :=
 | Tick (d : N)
 | Read (i : nat)
-| Adv (i k : nat)
+| Adv (i k : nat)      (* a whole database call of advance_cron_trigger, undisturbed: Sel i k then Wr i *)
+| Sel (i k : nat)      (* ... its SELECT: get_cron_trigger + check_db_obj_access *)
+| Wr (i : nat)         (* ... its DELETE / conditional UPDATE statement, commit, and the reported count *)
 | Start (i : nat)
 | Drop (i : nat)      (* start_workflow / create_context raises: logged, the pass goes on *)
 | Crash (i : nat).    (* the process dies *)
@@ -90,69 +105,109 @@ Definition count_key (k : nat) (l : list (nat * N)) : nat :=
 
 Section WithNxt.
 Variable byname : bool.
+Variable drc : bool.            (* Gen.CronCfg.delete_reports_rowcount *)
+Variable urm : bool.            (* Gen.CronCfg.update_reports_match *)
 Variable keys : list nat.
 Variable nxt : nat -> N -> N.   (* croniter(pattern of trigger k, t).get_next() *)
 
-(* the snapshot of row k is consumed by processor i without winning *)
+Definition clear_snap (s : state) (i k : nat) : nat -> nat -> option trig :=
+  upd (snap s) i (upd (snap s i) k None).
+
+(* the snapshot of row k is consumed by processor i without winning, at the SELECT *)
 Definition lose (s : state) (i k : nat) : state :=
-  mkS (now s) (db s) (upd (snap s) i (upd (snap s i) k None)) (pend s) (starts s) (won s) (lost s).
+  mkS (now s) (db s) (clear_snap s i k) (sel s) (pend s) (starts s) (won s) (lost s).
 
-(* processor i wins row k' (new content v) with its snapshot sn of row k *)
-Definition win (s : state) (i k : nat) (sn : trig) (k' : nat) (d : trig) (v : option trig) : state :=
-  mkS (now s) (upd (db s) k' v) (upd (snap s) i (upd (snap s i) k None)) (upd (pend s) i (Some (k, sn)))
-      (starts s) ((k', t_next d) :: won s) (lost s).
-
-(* advance_cron_trigger(t) for the snapshot sn of row k held by processor i, followed by the bookkeeping of
-   process_cron_triggers_v2 (`if modified:` -> the start is pending) *)
-Definition adv (s : state) (i k : nat) : state :=
-  match pend s i, snap s i k with
-  | None, Some sn =>
-    let r' := dec (t_rem sn) in
+(* the SELECT half of triggers.delete_cron_trigger(t.id) / db_api.update_cron_trigger(t.id, values, query_filter)
+   for the snapshot sn of row k held by processor i.  next_time (the value the UPDATE will write) is computed by
+   advance_cron_trigger right before the call: croniter(pattern, max(utcnow(), t.next_execution_time)). *)
+Definition select (s : state) (i k : nat) : state :=
+  match pend s i, sel s i, snap s i k with
+  | None, None, Some sn =>
     match resolve byname keys (db s) k sn with
     | None => lose s i k                              (* DBEntityNotFoundError: caught, modified_count = 0 *)
     | Some k' =>
       match db s k' with
       | None => lose s i k
       | Some d =>
-        if is_zero r' then
-          (* triggers.delete_cron_trigger(t.name): check_db_obj_access, then DELETE by id *)
-          if Nat.eqb (t_proj d) (t_proj sn) then win s i k sn k' d None
-          else lose s i k                             (* NotAllowedException: logged by the caller *)
-        else
-          (* UPDATE ... WHERE id = <resolved row> AND next_execution_time = <read value> *)
-          if t_next d =? t_next sn
-          then win s i k sn k' d (Some (set_dyn d (nxt k (N.max (now s) (t_next sn))) r'))
-          else lose s i k
+        if is_zero (dec (t_rem sn)) && negb (Nat.eqb (t_proj d) (t_proj sn))
+        then lose s i k                               (* NotAllowedException: logged by the caller *)
+        else mkS (now s) (db s) (clear_snap s i k)
+                 (upd (sel s) i (Some (k, sn, k', nxt k (N.max (now s) (t_next sn)))))
+                 (pend s) (starts s) (won s) (lost s)
       end
     end
-  | _, _ => s
+  | _, _, _ => s
+  end.
+
+(* the write reports 0: advance_cron_trigger returns False *)
+Definition wr_lose (s : state) (i : nat) : state :=
+  mkS (now s) (db s) (snap s) (upd (sel s) i None) (pend s) (starts s) (won s) (lost s).
+
+(* the write changes row k' (content d before, v after) and reports 1: the start is pending (`if modified:`) *)
+Definition wr_win (s : state) (i k : nat) (sn : trig) (k' : nat) (d : trig) (v : option trig) : state :=
+  mkS (now s) (upd (db s) k' v) (snap s) (upd (sel s) i None) (upd (pend s) i (Some (k, sn)))
+      (starts s) ((k', t_next d) :: won s) (lost s).
+
+(* the write changes nothing and still reports 1 (only when drc / urm = false) *)
+Definition wr_phantom (s : state) (i k : nat) (sn : trig) : state :=
+  mkS (now s) (db s) (snap s) (upd (sel s) i None) (upd (pend s) i (Some (k, sn))) (starts s) (won s) (lost s).
+
+(* the DELETE / UPDATE half, followed by the bookkeeping of process_cron_triggers_v2 *)
+Definition write (s : state) (i : nat) : state :=
+  match sel s i with
+  | Some (k, sn, k', nv) =>
+    let r' := dec (t_rem sn) in
+    if is_zero r' then
+      (* DELETE FROM cron_triggers_v2 WHERE id = <selected row>; reported: its row count *)
+      match db s k' with
+      | Some d => wr_win s i k sn k' d None
+      | None => if drc then wr_lose s i else wr_phantom s i k sn
+      end
+    else
+      (* UPDATE ... SET next_execution_time, remaining_executions WHERE id = <selected row> AND
+         next_execution_time = <read value>; no row matched: NoRowsMatched -> 0 *)
+      match db s k' with
+      | Some d => if t_next d =? t_next sn then wr_win s i k sn k' d (Some (set_dyn d nv r'))
+                  else if urm then wr_lose s i else wr_phantom s i k sn
+      | None => if urm then wr_lose s i else wr_phantom s i k sn
+      end
+  | None => s
+  end.
+
+(* advance_cron_trigger(t) running both halves of its database call with no other processor in between *)
+Definition adv (s : state) (i k : nat) : state :=
+  match sel s i with
+  | None => write (select s i k) i
+  | Some _ => s
   end.
 
 Definition step (s : state) (o : op) : state :=
   match o with
-  | Tick d => mkS (now s + d) (db s) (snap s) (pend s) (starts s) (won s) (lost s)
+  | Tick d => mkS (now s + d) (db s) (snap s) (sel s) (pend s) (starts s) (won s) (lost s)
   | Read i =>
     mkS (now s) (db s)
         (upd (snap s) i (fun k => match db s k with
                                   | Some t => if due (now s) t then Some t else None
                                   | None => None end))
-        (pend s) (starts s) (won s) (lost s)
+        (sel s) (pend s) (starts s) (won s) (lost s)
   | Adv i k => adv s i k
+  | Sel i k => select s i k
+  | Wr i => write s i
   | Start i =>
     match pend s i with
     | Some (k, sn) =>
-      mkS (now s) (db s) (snap s) (upd (pend s) i None)
+      mkS (now s) (db s) (snap s) (sel s) (upd (pend s) i None)
           (mkEv i k (t_next sn) (t_payload sn) (t_proj sn) :: starts s) (won s) (lost s)
     | None => s
     end
   | Drop i =>
     match pend s i with
     | Some (k, sn) =>
-      mkS (now s) (db s) (snap s) (upd (pend s) i None) (starts s) (won s) ((k, t_next sn) :: lost s)
+      mkS (now s) (db s) (snap s) (sel s) (upd (pend s) i None) (starts s) (won s) ((k, t_next sn) :: lost s)
     | None => s
     end
   | Crash i =>
-    mkS (now s) (db s) (upd (snap s) i (fun _ => None)) (upd (pend s) i None) (starts s) (won s)
+    mkS (now s) (db s) (upd (snap s) i (fun _ => None)) (upd (sel s) i None) (upd (pend s) i None) (starts s) (won s)
         (match pend s i with Some (k, sn) => (k, t_next sn) :: lost s | None => lost s end)
   end.
 
@@ -161,7 +216,7 @@ Definition run (s : state) (ops : list op) : state := fold_left step ops s.
 End WithNxt.
 
 Definition init (t0 : N) (db0 : nat -> option trig) : state :=
-  mkS t0 db0 (fun _ _ => None) (fun _ => None) [] [] [].
+  mkS t0 db0 (fun _ _ => None) (fun _ => None) (fun _ => None) [] [] [].
 
 (* ---- creation (triggers.create_cron_trigger + validate_cron_trigger_input) ----
    pat: None = no pattern (None or ''), Some true = valid, Some false = croniter rejects it.
@@ -210,7 +265,9 @@ Definition db_view (keys : list nat) (s : state) : list Z :=
 Definition obs (keys : list nat) (s : state) (o : op) (s' : state) : list Z :=
   match o with
   | Read i => 1%Z :: map Z.of_nat (filter (fun k => match snap s' i k with Some _ => true | None => false end) keys)
-  | Adv i k => [2%Z; if Nat.ltb (length (won s)) (length (won s')) then 1%Z else 0%Z]
+  | Adv i _ | Wr i =>       (* what advance_cron_trigger returns: a start became pending *)
+    [2%Z; match pend s i, pend s' i with None, Some _ => 1%Z | _, _ => 0%Z end]
+  | Sel i _ => [4%Z; match sel s i, sel s' i with None, Some _ => 1%Z | _, _ => 0%Z end]
   | Start i =>
     if Nat.ltb (length (starts s)) (length (starts s')) then
       match starts s' with
@@ -221,16 +278,17 @@ Definition obs (keys : list nat) (s : state) (o : op) (s' : state) : list Z :=
   | _ => [0%Z]
   end.
 
-Fixpoint trace (byname : bool) (keys : list nat) (nxt : nat -> N -> N) (s : state) (ops : list op)
+Fixpoint trace (byname drc urm : bool) (keys : list nat) (nxt : nat -> N -> N) (s : state) (ops : list op)
   : list (list Z * list Z) :=
   match ops with
   | [] => []
-  | o :: r => let s' := step byname keys nxt s o in (obs keys s o s', db_view keys s') :: trace byname keys nxt s' r
+  | o :: r => let s' := step byname drc urm keys nxt s o in
+              (obs keys s o s', db_view keys s') :: trace byname drc urm keys nxt s' r
   end.
 
-Definition run_trace (byname : bool) (keys : list nat) (tbl : list (nat * (N * N))) (t0 : N) (rows : list (nat * trig))
-           (ops : list op) : list (list Z * list Z) :=
-  trace byname keys (nxt_of tbl) (init t0 (db_of rows)) ops.
+Definition run_trace (byname drc urm : bool) (keys : list nat) (tbl : list (nat * (N * N))) (t0 : N)
+           (rows : list (nat * trig)) (ops : list op) : list (list Z * list Z) :=
+  trace byname drc urm keys (nxt_of tbl) (init t0 (db_of rows)) ops.
 
 (* rows of a case: key, (name, project, public, payload), what `create` stored (None = rejected: no row) *)
 Definition mk_rows (l : list (nat * (nat * nat * bool * nat) * option (N * option Z))) : list (nat * trig) :=
